@@ -106,6 +106,12 @@ impl Debugger {
         self.last_state.replace(state);
     }
 
+    /// Forget the last known state of the VM. A new execution must not inherit the
+    /// location at which a previous, abandoned debug session was suspended.
+    pub fn clear_last_state(&mut self) {
+        self.last_state = None;
+    }
+
     /// Retried the last state of execution; return `None` if the VM was never
     /// executed.
     pub const fn last_state(&self) -> &Option<ProgramState> {
